@@ -214,6 +214,25 @@ def oracle_loader_fsc_variants(ck, rng, fscf):
                 fq, f = fscf(base_[s_, 0] * msk, base_[s_, 1] * msk, dfq)
                 if not np.allclose(a_[0][f"FSC-{s_}"].to_numpy(), f, atol=1e-4, equal_nan=True):
                     fails.append(f"fsc_with_halfmaps(zero_norm={zn}) is not the FSC of the {'mean-subtracted ' if zn else ''}masked half averages")
+        # a mask given as an image provider is the provided image; squeeze only drops the set axis of a single set; bad arguments are rejected
+        try:
+            prov = pipe.from_array(msk.astype(np.float32), original_scale=ld.scale)
+            pr_ = ld.fsc_with_halfmaps(mask=prov, seed=seed, n_set=nset, squeeze=False)
+            if not np.allclose(pr_[0].to_numpy(), same.to_numpy(), atol=1e-5, equal_nan=True) or not np.allclose(np.asarray(pr_[2]), msk, atol=1e-6):
+                fails.append("provider mask and the same mask given as an array give different FSC / mask")
+            sq = ld.fsc_with_halfmaps(mask=msk.astype(np.float32), seed=seed, n_set=1, squeeze=True)
+            ns = ld.fsc_with_halfmaps(mask=msk.astype(np.float32), seed=seed, n_set=1, squeeze=False)
+            if np.asarray(sq[1][0]).shape != (8, 8, 8) or not np.allclose(np.asarray(sq[1][0]), np.asarray(ns[1][0])[0]) \
+                    or not np.allclose(np.asarray(sq[1][1]), np.asarray(ns[1][1])[0]) or not np.allclose(sq[0].to_numpy(), ns[0].to_numpy(), equal_nan=True):
+                fails.append("squeeze=True changes more than the set axis of the half maps")
+            for bad, exc in ((lambda: ld.fsc_with_halfmaps(n_set=0), ValueError), (lambda: SubtomogramLoader(tomo, ld.molecules, order=1).fsc_with_halfmaps(), (TypeError, ValueError))):
+                try:
+                    bad()
+                    fails.append("invalid n_set / unknown output shape accepted")
+                except exc:
+                    pass
+        except Exception as e_:  # noqa
+            fails.append(f"provider mask / squeeze variants raised {type(e_).__name__}: {e_}")
         grp = ld.groupby("g")
         # with a soft-edged mask given as an array: every split set is masked exactly once
         soft = np.clip(msk, 0.05, 1.0).astype(np.float32) if float(msk.max() - msk.min()) > 1e-3 else \
